@@ -18,8 +18,8 @@ From Flocq Require Import Core BinarySingleNaN.
 Open Scope N_scope.
 
 (** ** binary32 *)
-Definition f32_prec : Z := 24.
-Definition f32_emax : Z := 128.
+Notation f32_prec := 24%Z (only parsing).
+Notation f32_emax := 128%Z (only parsing).
 Definition f32_Hprec : FLX.Prec_gt_0 f32_prec := eq_refl.
 Definition f32_Hmax : Prec_lt_emax f32_prec f32_emax := eq_refl.
 Definition f32 : Set := binary_float f32_prec f32_emax.
@@ -184,8 +184,11 @@ Definition f_bits (x : f32) : N :=
       else sb + Z.to_N (e + 150) * 8388608 + (Npos m - 8388608)
   end.
 
+(** the observed line is run-length encoded: (code point, repetitions) *)
+Definition unrle (l : list (N * N)) : list N := flat_map (fun p => rep (snd p) (fst p)) l.
+
 (** case = (progress chars, char width, template, pos, len, observed fraction bits, observed line) *)
-Definition bar_check (cs : list (list N) * N * bar_tpl * N * option N * N * list N) : bool :=
+Definition bar_check (cs : list (list N) * N * bar_tpl * N * option N * N * list (N * N)) : bool :=
   let '(chars, c, tpl, pos, len, fb, obs) := cs in
   N.eqb (f_bits (fraction pos len)) fb &&
   option_eqb (list_eqb N.eqb)
@@ -193,4 +196,4 @@ Definition bar_check (cs : list (list N) * N * bar_tpl * N * option N * N * list
      | TBar w a => bar_line chars c w a pos len
      | TWide pre suf rest tw => wide_line chars c pre suf rest tw pos len
      end)
-    (Some obs).
+    (Some (unrle obs)).
